@@ -67,7 +67,7 @@ func insertFunc(ctx *flags.Context) error {
 			guests = append(guests, scanner.Value())
 		}
 		if len(guests) == 0 {
-			ctx.Raise(fmt.Errorf("guest sequence file %q does not contain a sequence", *guestPath))
+			return ctx.Raise(fmt.Errorf("guest sequence file %q does not contain a sequence", *guestPath))
 		}
 	}
 	guestSum := h.Sum(nil)
